@@ -812,6 +812,10 @@ func (x decNegintPosintFloatNumberHelper) float64TryInteger(cbor bool) float64 {
 
 func decNegintPosintFloatNumberHelperInt64v(ui uint64, neg, incrIfNeg bool) (i int64) {
 	if neg && incrIfNeg {
+		// the value is -1-ui: ui+1 must not wrap around to 0
+		if ui == math.MaxUint64 {
+			halt.errorUint("negative integer overflow: -1 - ", ui)
+		}
 		ui++
 	}
 	// ui is a magnitude: -ui fits down to math.MinInt64 (ui == 1<<63), +ui up to math.MaxInt64
